@@ -294,6 +294,13 @@ def build_cases(tier: str):
                 nseqp += 1
                 cases.append(Case(pid, backend, text, md, {"k": "seqparam:" + ctx, "ndev": 0}))
                 pid += 1
+        # First() of a sequence of sequences under every consumer
+        from mc.lang import firstseq
+        for ctx, text in firstseq.queries(backend):
+            if text not in seen and (tier != "quick" or backend == "atlas" or ":where" not in ctx):
+                seen.add(text)
+                cases.append(Case(pid, backend, text, md, {"k": "first-of-sequences:" + ctx, "ndev": 0}))
+                pid += 1
         # rows built as list literals whose columns live in different blocks
         from mc.lang import listfam
         nlist = 0
